@@ -74,7 +74,12 @@ def run_case(world_pack, cfg, case, seed, pid=PID):
                     a.send(x, ask_no_ack=case["noack"])
                 else:
                     a.write(x, ask_no_ack=case["noack"])
-                    link.poll_done(a)
+                    try:
+                        link.poll_done(a)
+                    except HarnessError:
+                        # 4000 status polls (> 1 s of virtual time) without "data sent" or "data failed": the payload is stuck
+                        v("write-never-completes", len(x), "write() of %d bytes: the radio reported neither data-sent nor data-fail within 4000 polls" % len(x))
+                        break
                 sent_upto += 1
     except ValueError:
         exc = "ValueError"
